@@ -6,9 +6,19 @@ use crate::process_request::process_request;
 /// layer 1: the parser on a fully symbolic line
 pub fn c10_parse() {
     let s = vsym::any_str("line", vsym::param("len", 24));
+    // the permission-list grammar multiplies paths per '|' piece: it has its own harness (c10_parse_permissions)
+    vsym::assume(!s.starts_with("set-permissions "));
     let r = Request::parse(&s);
     vsym::cover("parse.ok", r.is_ok());
     vsym::cover("parse.err", r.is_err());
+}
+
+/// layer 1b: the permission-list grammar of set-permissions on a symbolic list of bounded shape
+pub fn c10_parse_permissions() {
+    let user = vsym::any_token("user", 3);
+    let list = vsym::any_str("list", vsym::param("listlen", 6));
+    let r = Request::parse(&["set-permissions ", &user, " ", &list].concat());
+    vsym::cover("perm.ok", r.is_ok());
 }
 
 /// layer 2: every command word of the parser table x symbolic argument string x session kind, through process_request;
@@ -16,6 +26,9 @@ pub fn c10_parse() {
 pub fn c10_handlers() {
     let n = mk_primary();
     mk_db(&n.dbs, "d", "none");
+    // pre-state: a resolved and an unresolved conflict record are present (state that arbiter / keys / resolve walk over)
+    poke(&n.dbs, "d", "$conflicts_x_1", &String::from("resolved y"), 1, ValueStatus::Ok, 0, 0);
+    poke(&n.dbs, "d", "$conflicts_x_2", &String::from("resolve 2 d 1 x a b"), 1, ValueStatus::Ok, 0, 0);
     let (mut probe, mut prx) = db_client(&n.dbs, "d");
     let sess = vsym::choice("session", 3);
     vsym::tag_i("session", sess as i64);
@@ -26,14 +39,21 @@ pub fn c10_handlers() {
     words.sort();
     let w = vsym::choice("word", words.len());
     vsym::tag(&words[w]);
-    let args = vsym::any_str("args", vsym::param("arglen", 10));
-    let line = [&words[w], " ", &args].concat();
+    // argument list: 0..3 symbolic tokens (no spaces inside a token) joined by single spaces; the last one may be any string
+    let nargs = vsym::choice("nargs", 4);
+    let mut line = words[w].clone();
+    let mut a = 0;
+    while a < nargs {
+        let t = if a + 1 == nargs && vsym::param("free_tail", 1) == 1 { vsym::any_str("tail", vsym::param("arglen", 6)) } else { vsym::any_token("arg", vsym::param("arglen", 6)) };
+        line = [&line, " ", &t].concat();
+        a += 1;
+    }
     let r = process_request(&line, &n.dbs, &mut c);
     vsym::cover("handler.error-reply", is_error(&r));
     vsym::cover("handler.ok-reply", is_ok(&r));
     // the node keeps serving other clients
-    let r1 = process_request("set probe p1", &n.dbs, &mut probe);
-    let r2 = process_request("get probe", &n.dbs, &mut probe);
+    let r1 = process_request("set p p1", &n.dbs, &mut probe);
+    let r2 = process_request("get p", &n.dbs, &mut probe);
     // (an administrator may legitimately change what other clients can do; for the other sessions the probe must succeed)
     if sess != 1 {
         vsym::check("probe.set-answered", is_ok(&r1));
